@@ -124,7 +124,19 @@ func c13DoCall(fn, expr string, list []string) {
 }
 
 // c13CallCheck re-evaluates the monitors on one call (replay path).
+func firstN(s string, n int) string { return first(s, n) }
+
 func c13CallCheck(cs c13Case) string {
+	if cs.Kind == "repeat" && len(cs.Calls) == 1 {
+		env := c13calls.NewEnv()
+		a := env.Do(cs.Calls[0])
+		for i := 0; i < 8; i++ {
+			if b := env.Do(cs.Calls[0]); b != a {
+				return fmt.Sprintf("%+v returned %s and then %s for the same arguments", cs.Calls[0], first(a, 200), first(b, 200))
+			}
+		}
+		return ""
+	}
 	before := argMutations
 	out := withCapturedOutput(func() { c13DoCall(cs.Fn, cs.Expr, cs.List) })
 	if argMutations != before {
@@ -396,7 +408,7 @@ func init() {
 		Title:    "calls are pure: no argument mutation, no output, no history, safe under concurrency",
 		Explorer: "E2 explicit-state history search (fresh process per history, deep state dump) + E3 controlled-scheduler DFS over interleavings with iterated preemption bound on an instrumented overlay + universal argument/output monitors (+ free-running -race pass as sampling complement)",
 		Rule: "monitors: every call of the C04 list space and the C07 list space, argument slices with sentinel-filled spare capacity compared afterwards, fd 1/2 size compared after every call; " +
-			"E2: alphabet of 38 colliding calls; every history of length <= 2 (thorough 3) is replayed in a fresh process; state = canonical deep dump of all package-level variables of the module's packages (generated from the working tree), transition = one call; invariant: each call returns what it returns as the first call of a fresh process, arguments untouched, nothing printed; singletons run twice (determinism); " +
+			"E2: alphabet of 40 colliding calls; every history of length <= 2 (thorough 3) is replayed in a fresh process; state = canonical deep dump of all package-level variables of the module's packages (generated from the working tree), transition = one call; invariant: each call returns what it returns as the first call of a fresh process, arguments untouched, nothing printed; singletons run twice (determinism); " +
 			"E3: scenarios = every unordered pair of 12 colliding calls as 2 threads x 1 call, 2 threads x 2 calls in opposite orders, triples; scheduling points at every access to a package-level variable, every pointer-receiver method statement of a state-bearing type, every sync / sync/atomic operation, every range over a map (order = choice); DFS with preemption bound 0,1,2 (thorough 3); oracles on every complete schedule: results equal the sequential ones, no unordered conflicting accesses (vector clocks), no deadlock, arguments untouched; " +
 			"non-trivial = E2 histories of length >= 2 and E3 executions beyond the default schedule",
 		Assumptions: []string{
@@ -540,6 +552,22 @@ func c13Run(c *Ctx) {
 	}
 	c.Bound("monitors", map[string]any{"c04_core_lists_max_len": K, "c07_entry_lists_max_len": K})
 
+	// repeated identical calls in one process must give identical answers (also for long lists)
+	if c.Mine(1) {
+		env := c13calls.NewEnv()
+		for ci, call := range c13calls.Alphabet {
+			first := env.Do(call)
+			for rep := 0; rep < 4; rep++ {
+				c.Inc("transitions")
+				if again := env.Do(call); again != first {
+					c.Report(Violation{Kind: "c13.call", Class: "nondeterministic-result", Key: fmt.Sprintf("repeat:%d", ci), Size: 1,
+						Msg:  fmt.Sprintf("%+v returned %s and then %s for the same arguments in the same process", call, firstN(first, 200), firstN(again, 200)),
+						Case: mustJSON(c13Case{Kind: "repeat", Calls: []c13calls.Call{call}})})
+					break
+				}
+			}
+		}
+	}
 	if dir == "" {
 		c.NotExhaustive("C13 harness directory not provided (Pre step did not run)")
 		return
@@ -630,11 +658,23 @@ func c13Run(c *Ctx) {
 			c.NotExhaustive("instrumenter: unmodelled construct: " + u)
 		}
 	}
+	startsGoroutines := false
+	if b, err := os.ReadFile(filepath.Join(dir, "ov", "report.json")); err == nil {
+		startsGoroutines = strings.Contains(string(b), "\"go statement")
+	}
 	scs := c13Scenarios(thorough)
 	c.Bound("E3", map[string]any{"scenarios": len(scs), "colliding_calls": c13Colliding, "max_preemptions": scs[0].MaxPreemptions, "max_map_order_deviations": scs[0].MaxMapDev, "max_executions_per_scenario": scs[0].MaxExecutions})
 	for si, sc := range scs {
 		task++
 		if !c.Mine(task) {
+			continue
+		}
+		if startsGoroutines {
+			// goroutines started by the library itself run outside the cooperative scheduler: E3 cannot
+			// own their interleavings; the history explorer and the free-running -race pass still apply
+			if si == 0 {
+				c.NotExhaustive("E3 skipped: the library starts goroutines of its own (unmodelled); covered by E2, the monitors and the -race pass only")
+			}
 			continue
 		}
 		if c.Expired() {
